@@ -1,1 +1,195 @@
-//! C16 harnesses (not written yet).
+//! C16 — bit-count queries report exact run lengths for every vector.
+//!
+//! Oracle, on the model value `(n, v)` (v < 2^n by the representation invariant), with
+//! `inv = ~v mod 2^n`:
+//!   significant_bits = index of the highest set bit + 1            = sig(v)
+//!   leading_zeros    = n - sig(v)
+//!   leading_ones     = n - sig(inv)
+//!   trailing_zeros   = min(tz(v), n)
+//!   trailing_ones    = min(tz(inv), n)
+//!   is_zero          = (v == 0)
+//! plus the consequences named in the statement (each <= n, = n on uniform vectors, 0 on
+//! the empty vector, lz + sig = n, is_zero <=> sig = 0), asserted directly on the values
+//! returned by the code. Lengths and contents are fully symbolic in every harness, so every
+//! run ending at, one before and one after a storage-word boundary is included.
+//!
+//! Three harnesses per scope (`zl` = leading_zeros + significant_bits + is_zero, `ol` =
+//! leading_ones, `tr` = trailing_zeros + trailing_ones): one query family per SAT problem is
+//! several times cheaper than all six together. The queries take `&self`; the storage is
+//! nevertheless compared afterwards (free with `into_raw`).
+use crate::big::Big;
+use crate::nd;
+use crate::scopes::*;
+use bva::{Bit, BitVector, Bv, Bvd, Bvf};
+
+#[inline(always)]
+fn umin(a: usize, b: usize) -> usize {
+    if a < b {
+        a
+    } else {
+        b
+    }
+}
+
+/// Witnesses; `multi` = the scope has at least two storage words of `$B` bits.
+macro_rules! wit_zl {
+    (multi, $B:literal, $n:ident, $v:ident, $cap:expr) => {
+        w!($n == 0, "empty vector");
+        w!($cap >= $n + $B && $n > 0 && !$v.is_zero(), "non-zero vector with a spare storage word");
+        w!($n > $B && $n % $B != 0 && $v.sig() == $n - $n % $B,
+           "leading zero run covers exactly the partial top word (ends at a word boundary)");
+        w!($n > $B && $n % $B == 0 && $v.sig() == $n - $B - 1,
+           "len a multiple of the word size, leading zero run ends one bit after a word boundary");
+        w!($n > $B && $n % $B != 0 && $v.is_zero(), "all zeros over a full word plus a partial word");
+    };
+    (single, $B:literal, $n:ident, $v:ident, $cap:expr) => {
+        w!($n == 0, "empty vector");
+        w!($n == $B && $v.is_zero(), "all zeros, len exactly the word size");
+        w!($n > 2 && $n < $B && $v.sig() == $n - 1, "partial word, single leading zero");
+        w!($n == $B && $v.sig() == $B, "full word, no leading zero");
+    };
+}
+macro_rules! wit_ol {
+    (multi, $B:literal, $n:ident, $v:ident, $inv:ident) => {
+        w!($n == 0, "empty vector");
+        w!($n > $B && $n % $B != 0 && $inv.is_zero(), "all ones over a full word followed by a partial word");
+        w!($n > $B && $n % $B != 0 && $inv.sig() == $n - $n % $B,
+           "leading one run covers exactly the partial top word (single zero just below the boundary)");
+        w!($n > $B && $n % $B == 0 && $inv.sig() == $n - $B - 1,
+           "len a multiple of the word size, leading one run ends one bit after a word boundary");
+        w!($n > $B && $n % $B == 0 && $inv.is_zero(), "all ones, len a multiple of the word size");
+    };
+    (single, $B:literal, $n:ident, $v:ident, $inv:ident) => {
+        w!($n == 0, "empty vector");
+        w!($n == $B && $inv.is_zero(), "all ones, len exactly the word size");
+        w!($n > 2 && $n < $B && $inv.sig() == $n - 1, "partial word, single leading one");
+        w!($n > 0 && $n < $B && $inv.is_zero(), "all ones in a partial word");
+    };
+}
+macro_rules! wit_tr {
+    (multi, $B:literal, $n:ident, $v:ident, $inv:ident) => {
+        w!($n == 0, "empty vector");
+        w!($n > $B + 1 && $inv.tz() == $B - 1 && $v.bit($B),
+           "trailing one run interrupted by a single zero one bit before a word boundary");
+        w!($n > $B + 1 && $v.tz() == $B + 1, "trailing zero run ends one bit after a word boundary");
+        w!($n > $B && $v.tz() == $B && $inv.tz() == 0, "trailing zero run ends exactly at a word boundary");
+        w!($n > $B && $n % $B != 0 && ($v.is_zero() || $inv.is_zero()),
+           "uniform vector over a full word plus a partial word");
+    };
+    (single, $B:literal, $n:ident, $v:ident, $inv:ident) => {
+        w!($n == 0, "empty vector");
+        w!($n == $B && $v.is_zero(), "all zeros, len exactly the word size");
+        w!($n > 0 && $n < $B && $inv.is_zero(), "all ones in a partial word");
+        w!($n > 2 && $v.tz() == 1 && $v.sig() == $n - 1, "one zero at each end");
+    };
+}
+
+macro_rules! h_zl {
+    ($name:ident, $unw:literal, $a:expr, $kind:ident, $B:literal) => {
+        harness!($name, $unw, {
+            let (a, ra) = $a;
+            let n = ra.len;
+            let v = ra.v;
+            wit_zl!($kind, $B, n, v, ra.cap);
+            let lz = a.leading_zeros();
+            let sig = a.significant_bits();
+            let z = a.is_zero();
+            assert!(sig == v.sig(), "C16: significant_bits != index of highest set bit + 1");
+            assert!(lz == n - v.sig(), "C16: leading_zeros != length of the zero run at the top");
+            assert!(z == v.is_zero(), "C16: is_zero != (all bits zero)");
+            // consequences, on the returned values themselves
+            assert!(lz <= n && sig <= n, "C16: a count exceeds len");
+            assert!(lz + sig == n, "C16: leading_zeros + significant_bits != len");
+            assert!(z == (sig == 0), "C16: is_zero differs from significant_bits == 0");
+            assert!(!v.is_zero() || lz == n, "C16: zero vector: leading_zeros != len");
+            assert!(n != 0 || (lz == 0 && sig == 0 && z), "C16: empty vector: non-zero count or not zero");
+            assert!(a.len() == n, "C16: len changed");
+            assert!(a.into_raw() == ra, "C16: query modified the vector");
+        });
+    };
+}
+
+macro_rules! h_ol {
+    ($name:ident, $unw:literal, $a:expr, $kind:ident, $B:literal) => {
+        harness!($name, $unw, {
+            let (a, ra) = $a;
+            let n = ra.len;
+            let v = ra.v;
+            let inv = v.not().trunc(n);
+            wit_ol!($kind, $B, n, v, inv);
+            let lo = a.leading_ones();
+            assert!(lo == n - inv.sig(), "C16: leading_ones != length of the one run at the top");
+            assert!(lo <= n, "C16: a count exceeds len");
+            assert!(!inv.is_zero() || lo == n, "C16: all-ones vector: leading_ones != len");
+            assert!(n != 0 || lo == 0, "C16: empty vector: non-zero count");
+            assert!(a.into_raw() == ra, "C16: query modified the vector");
+        });
+    };
+}
+
+macro_rules! h_tr {
+    ($name:ident, $unw:literal, $a:expr, $kind:ident, $B:literal) => {
+        harness!($name, $unw, {
+            let (a, ra) = $a;
+            let n = ra.len;
+            let v = ra.v;
+            let inv = v.not().trunc(n);
+            wit_tr!($kind, $B, n, v, inv);
+            let tz = a.trailing_zeros();
+            let to = a.trailing_ones();
+            assert!(tz == umin(v.tz(), n), "C16: trailing_zeros != length of the zero run at the bottom");
+            assert!(to == umin(inv.tz(), n), "C16: trailing_ones != length of the one run at the bottom");
+            assert!(tz <= n && to <= n, "C16: a count exceeds len");
+            assert!(!v.is_zero() || tz == n, "C16: zero vector: trailing_zeros != len");
+            assert!(!inv.is_zero() || to == n, "C16: all-ones vector: trailing_ones != len");
+            assert!(n != 0 || (tz == 0 && to == 0), "C16: empty vector: non-zero count");
+            assert!(a.into_raw() == ra, "C16: query modified the vector");
+        });
+    };
+}
+
+macro_rules! h_counts {
+    ($zl:ident, $ol:ident, $tr:ident, $unw:literal, $a:expr, $kind:ident, $B:literal) => {
+        h_zl!($zl, $unw, $a, $kind, $B);
+        h_ol!($ol, $unw, $a, $kind, $B);
+        h_tr!($tr, $unw, $a, $kind, $B);
+    };
+}
+
+// ---- Bvf ---------------------------------------------------------------------------------
+h_counts!(c16_q_zl_f8x1, c16_q_ol_f8x1, c16_q_tr_f8x1, 3, f8x1(anylen(8)), single, 8);
+h_counts!(c16_q_zl_f8x2, c16_q_ol_f8x2, c16_q_tr_f8x2, 4, f8x2(anylen(16)), multi, 8);
+h_counts!(c16_q_zl_f8x3, c16_q_ol_f8x3, c16_q_tr_f8x3, 5, f8x3(anylen(24)), multi, 8);
+h_counts!(c16_q_zl_f8x4, c16_q_ol_f8x4, c16_q_tr_f8x4, 6, f8x4(anylen(32)), multi, 8);
+h_counts!(c16_q_zl_f16x1, c16_q_ol_f16x1, c16_q_tr_f16x1, 3, f16x1(anylen(16)), single, 16);
+h_counts!(c16_q_zl_f16x2, c16_q_ol_f16x2, c16_q_tr_f16x2, 4, f16x2(anylen(32)), multi, 16);
+h_counts!(c16_q_zl_f32x2, c16_q_ol_f32x2, c16_q_tr_f32x2, 4, f32x2(anylen(64)), multi, 32);
+h_counts!(c16_q_zl_f64x1, c16_q_ol_f64x1, c16_q_tr_f64x1, 3, f64x1(anylen(64)), single, 64);
+h_counts!(c16_q_zl_f64x2, c16_q_ol_f64x2, c16_q_tr_f64x2, 4, f64x2(anylen(128)), multi, 64);
+h_counts!(c16_t_zl_f32x1, c16_t_ol_f32x1, c16_t_tr_f32x1, 3, f32x1(anylen(32)), single, 32);
+h_counts!(c16_t_zl_f64x3, c16_t_ol_f64x3, c16_t_tr_f64x3, 5, f64x3(anylen(192)), multi, 64);
+h_counts!(c16_t_zl_fuszx2, c16_t_ol_fuszx2, c16_t_tr_fuszx2, 4, fuszx2(anylen(128)), multi, 64);
+h_counts!(c16_t_zl_f128x1, c16_t_ol_f128x1, c16_t_tr_f128x1, 3, f128x1(anylen(128)), single, 128);
+h_counts!(c16_t_zl_f128x2, c16_t_ol_f128x2, c16_t_tr_f128x2, 4, f128x2(anylen(256)), multi, 128);
+
+// ---- Bvd: W allocated words, every len 0..=64 W (spare words whenever len <= 64 (W-1)) ------
+h_counts!(c16_q_zl_bvd1, c16_q_ol_bvd1, c16_q_tr_bvd1, 3, bvd1(anylen(64)), single, 64);
+h_counts!(c16_q_zl_bvd2, c16_q_ol_bvd2, c16_q_tr_bvd2, 4, bvd2(anylen(128)), multi, 64);
+h_counts!(c16_q_zl_bvd3, c16_q_ol_bvd3, c16_q_tr_bvd3, 5, bvd3(anylen(192)), multi, 64);
+h_counts!(c16_t_zl_bvd4, c16_t_ol_bvd4, c16_t_tr_bvd4, 6, bvd4(anylen(256)), multi, 64);
+
+// ---- Bv, inline and heap mode ----------------------------------------------------------------
+h_counts!(c16_q_zl_bvfix, c16_q_ol_bvfix, c16_q_tr_bvfix, 4, bvfix(anylen(128)), multi, 64);
+h_counts!(c16_q_zl_bvdyn2, c16_q_ol_bvdyn2, c16_q_tr_bvdyn2, 4, bvdyn2(anylen(128)), multi, 64);
+h_counts!(c16_t_zl_bvdyn1, c16_t_ol_bvdyn1, c16_t_tr_bvdyn1, 3, bvdyn1(anylen(64)), single, 64);
+h_counts!(c16_t_zl_bvdyn3, c16_t_ol_bvdyn3, c16_t_tr_bvdyn3, 5, bvdyn3(anylen(192)), multi, 64);
+
+/// The empty `Bvd` without any storage word (what `Bvd::zeros(0)` produces).
+harness!(c16_q_bvd0, 2, {
+    let (a, ra) = bvd0(0);
+    w!(ra.cap == 0 && ra.len == 0, "no storage at all");
+    assert!(a.leading_zeros() == 0 && a.leading_ones() == 0, "C16: empty vector: non-zero leading count");
+    assert!(a.trailing_zeros() == 0 && a.trailing_ones() == 0, "C16: empty vector: non-zero trailing count");
+    assert!(a.significant_bits() == 0 && a.is_zero(), "C16: empty vector: significant bits / not zero");
+    assert!(a.into_raw() == ra, "C16: query modified the vector");
+});
